@@ -176,7 +176,8 @@ impl<G: SerializeElement> SerializeElement for Vec<G> {
             where
                 A: SeqAccess<'de>,
             {
-                let mut elems = Vec::with_capacity(seq.size_hint().unwrap_or(0));
+                // The size hint comes from the (untrusted) input: cap the up-front allocation.
+                let mut elems = Vec::with_capacity(std::cmp::min(seq.size_hint().unwrap_or(0), 1024));
                 while let Some(elem) = seq.next_element::<DeWrapper<G>>()? {
                     elems.push(elem.0);
                 }
@@ -245,7 +246,9 @@ impl<G: SerializeElement, const N: usize> SerializeElement for [G; N] {
             {
                 let mut elems = ArrayVec::new();
                 while let Some(elem) = seq.next_element::<DeWrapper<G>>()? {
-                    elems.push(elem.0);
+                    elems
+                        .try_push(elem.0)
+                        .map_err(|_| de::Error::custom("wrong number of elements for array"))?;
                 }
                 elems
                     .into_inner()
